@@ -5,13 +5,16 @@ from harness.flatten import coq_list, coq_bool
 from harness.props._common import run_eval, replay_eval
 
 PROPS_FILE = "P_C18"
-COQ_TARGETS = ["CaseLib", "FnPointsModel"]
+COQ_TARGETS = ["CaseLib", "FnPointsModel", "FnLoop"]
 RULE = ("correspondence: the instruction list of FnPointsInitialize(...).definition (x, cx, ccx, cu) is compared inside Coq with "
         "FnPointsModel.fn_gates for dictionaries in every order (m <= 3) or random orders, n = 2..6/10; a cu gate is accepted as gate "
-        "(idx_p, s) only if its four parameters are bit-identical to -2 acos sqrt(p/(p+1)), 2 pi s/N', -2 pi s/N', 0; direct evaluation "
+        "(idx_p, s) only if its four parameters are bit-identical to -2 acos sqrt(p/(p+1)), 2 pi s/N', -2 pi s/N', 0, and the matrix "
+        "Qiskit gives that gate is compared (1e-12) with the controlled FnSem.Umat of the theorem; direct evaluation "
         "(harness/props/c18_eval.py): full state vs the closed form. distinct = distinct (dictionary order, N); non-trivial = m >= 2")
-ASSUMPTIONS = ["the explicit-state invariant over the points (B9 of DESIGN.md) is evaluated, not yet proved",
-               "Qiskit's cu(theta, phi, lambda, 0) is the controlled U(theta,phi,lambda)"]
+ASSUMPTIONS = ["Qiskit's x, cx, ccx are the permutation gates of FnSem.fapp; cu(theta, phi, lambda, 0) is the controlled FnSem.Umat "
+               "(its matrix is compared numerically on every cu gate met)",
+               "N' = max(requested, largest output - 1) is computed by the constructor (checked by the direct evaluation only; the "
+               "theorem holds for every N')"]
 TRUSTED = ["top-level instruction list of the definition"]
 HEADER = ("From Coq Require Import List Bool Arith ZArith.\nFrom QV Require Import FnPointsModel CaseLib.\nImport ListNotations.\n"
           "Definition fgate_eqb (g h : fgate) : bool := match g, h with\n"
@@ -59,6 +62,17 @@ def correspondence(ctx):
                                     found = (p, s)
                                     break
                             if found:
+                                # the matrix the theorem assumes for this gate: control = first qubit (little endian), U on the second
+                                ctx.monitor("qiskit_cu_matrix")
+                                p_, s_ = found
+                                cth, sth = np.cos(th / 2), np.sin(th / 2)
+                                phi_ = 2 * np.pi * s_ / Np
+                                U = np.array([[cth, -np.exp(-1j * phi_) * sth], [np.exp(1j * phi_) * sth, cth]])
+                                ref = np.eye(4, dtype=complex)
+                                ref[np.ix_([1, 3], [1, 3])] = U
+                                if np.abs(np.asarray(op.to_matrix()) - ref).max() > 1e-12:
+                                    ctx.mismatch("C18 contract: Qiskit's cu(theta, phi, lambda, 0) is not the controlled Umat of the theorem",
+                                                 {"theta": th, "phi": ph, "lambda": la})
                                 cu_seen.append(found)
                                 items.append(f"FCU {found[0]} ({found[1]})%Z {qs[0]} {qs[1]}")
                             else:
@@ -92,7 +106,7 @@ def replay(ctx, case):
 
 
 MANIFEST = dict(
-    text='Proof (PARTIAL): the S-matrix angle gives cos^2 = p/(p+1) and splits a generator amplitude sqrt((p+1)/m) into a stored modulus 1/sqrt(m) and sqrt(p/m) (C18_theta, C18_split). Tie: the instruction list of FnPointsInitialize is compared inside Coq with FnPointsModel.fn_gates for dictionaries in every order (cu parameters must be bit-identical to the closed forms). The full-state claim is evaluated.',
-    note='Modelled, not verified: explicit-state invariant over the points (evaluated); Qiskit cu.',
-    technique='Coq proof (real sqrt/acos identities) + instruction-list correspondence (vm_compute) + state-vector evaluation',
+    text="Proof: C18_fn_state - for every n >= 2, every non-empty list of pairwise distinct n-bit inputs in any order, every output assignment and every N', the gate list FnPointsModel.fn_gates run from |0..0> has amplitude -(1/sqrt m) e^{2 pi i s/N'} on the basis state holding the input in the x register with all work qubits 0 (C18_target_bits) and 0 elsewhere; proved by a sound sparse simulation (FnSem.sim_sound) and an invariant over the points; C18_theta / C18_split are the S-matrix bookkeeping. Tie: the instruction list of FnPointsInitialize is compared inside Coq with FnPointsModel.fn_gates for dictionaries in every order (cu parameters bit-identical to the closed forms, cu matrix compared with the theorem's). The full state is also evaluated.",
+    note="Modelled, not verified: Qiskit's x/cx/ccx/cu matrices (cu compared numerically); the constructor's choice of N'.",
+    technique='Coq proof (sparse-simulation soundness + loop invariant over the points, all n) + instruction-list correspondence (vm_compute) + state-vector evaluation',
     design_ref='DESIGN.md section 4, C18')
